@@ -4,6 +4,12 @@
  * can be decided while the kernels stay opaque.  Include after vcommon.h; stubs installed by --replace-calls. */
 #ifndef VERIF_W_UF_H
 #define VERIF_W_UF_H
+/* optional hooks (C06): W_UF_ENTER / W_UF_LEAVE bracket every stub body, W_UF_VT(p, len) sees the operands of variable-time routines */
+#ifndef W_UF_ENTER
+#define W_UF_ENTER
+#define W_UF_LEAVE
+#define W_UF_VT(p, len)
+#endif
 typedef unsigned __CPROVER_bitvector[256] u256;
 typedef unsigned __CPROVER_bitvector[512] u512;
 u256 __CPROVER_uninterpreted_femul(bvw a, bvw b);
@@ -29,43 +35,43 @@ static void uf_fe_set(secp256k1_fe *r, u256 v) {
 static u256 uf_sc_get(const secp256k1_scalar *a) { return (((((u256)a->d[3] << 64) | a->d[2]) << 64 | a->d[1]) << 64) | a->d[0]; }
 static void uf_sc_set(secp256k1_scalar *r, u256 v) { __CPROVER_assume((bvw)v < verif_N()); r->d[0] = (uint64_t)v; r->d[1] = (uint64_t)(v >> 64); r->d[2] = (uint64_t)(v >> 128); r->d[3] = (uint64_t)(v >> 192); }
 
-void STUB_secp256k1_fe_impl_mul(secp256k1_fe *r, const secp256k1_fe *a, const secp256k1_fe * SECP256K1_RESTRICT b) { uf_fe_set(r, __CPROVER_uninterpreted_femul(fe_val(a), fe_val(b))); }
-void STUB_secp256k1_fe_impl_sqr(secp256k1_fe *r, const secp256k1_fe *a) { uf_fe_set(r, __CPROVER_uninterpreted_fesqr(fe_val(a))); }
-void STUB_secp256k1_fe_impl_inv(secp256k1_fe *r, const secp256k1_fe *a) { uf_fe_set(r, __CPROVER_uninterpreted_feinv(fe_val(a))); }
-void STUB_secp256k1_fe_impl_inv_var(secp256k1_fe *r, const secp256k1_fe *a) { uf_fe_set(r, __CPROVER_uninterpreted_feinv(fe_val(a))); }
-int STUB_secp256k1_fe_sqrt(secp256k1_fe * SECP256K1_RESTRICT r, const secp256k1_fe * SECP256K1_RESTRICT a) { bvw v = fe_val(a); uf_fe_set(r, __CPROVER_uninterpreted_fesqrt(v)); return __CPROVER_uninterpreted_fesqrt_ok(v) & 1; }
-int STUB_secp256k1_fe_impl_is_square_var(const secp256k1_fe *x) { return __CPROVER_uninterpreted_feissq(fe_val(x)) & 1; }
-void STUB_secp256k1_scalar_mul(secp256k1_scalar *r, const secp256k1_scalar *a, const secp256k1_scalar *b) { uf_sc_set(r, __CPROVER_uninterpreted_scmul2(uf_sc_get(a), uf_sc_get(b))); }
-void STUB_secp256k1_scalar_inverse(secp256k1_scalar *r, const secp256k1_scalar *a) { uf_sc_set(r, __CPROVER_uninterpreted_scinv2(uf_sc_get(a))); }
-void STUB_secp256k1_scalar_inverse_var(secp256k1_scalar *r, const secp256k1_scalar *a) { uf_sc_set(r, __CPROVER_uninterpreted_scinv2(uf_sc_get(a))); }
+void STUB_secp256k1_fe_impl_mul(secp256k1_fe *r, const secp256k1_fe *a, const secp256k1_fe * SECP256K1_RESTRICT b) { W_UF_ENTER uf_fe_set(r, __CPROVER_uninterpreted_femul(fe_val(a), fe_val(b))); W_UF_LEAVE }
+void STUB_secp256k1_fe_impl_sqr(secp256k1_fe *r, const secp256k1_fe *a) { W_UF_ENTER uf_fe_set(r, __CPROVER_uninterpreted_fesqr(fe_val(a))); W_UF_LEAVE }
+void STUB_secp256k1_fe_impl_inv(secp256k1_fe *r, const secp256k1_fe *a) { W_UF_ENTER uf_fe_set(r, __CPROVER_uninterpreted_feinv(fe_val(a))); W_UF_LEAVE }
+void STUB_secp256k1_fe_impl_inv_var(secp256k1_fe *r, const secp256k1_fe *a) { W_UF_ENTER W_UF_VT(a, sizeof(*a)); uf_fe_set(r, __CPROVER_uninterpreted_feinv(fe_val(a))); W_UF_LEAVE }
+int STUB_secp256k1_fe_sqrt(secp256k1_fe * SECP256K1_RESTRICT r, const secp256k1_fe * SECP256K1_RESTRICT a) { W_UF_ENTER bvw v = fe_val(a); int ok; uf_fe_set(r, __CPROVER_uninterpreted_fesqrt(v)); ok = __CPROVER_uninterpreted_fesqrt_ok(v) & 1; W_UF_LEAVE return ok; }
+int STUB_secp256k1_fe_impl_is_square_var(const secp256k1_fe *x) { W_UF_ENTER int v; W_UF_VT(x, sizeof(*x)); v = __CPROVER_uninterpreted_feissq(fe_val(x)) & 1; W_UF_LEAVE return v; }
+void STUB_secp256k1_scalar_mul(secp256k1_scalar *r, const secp256k1_scalar *a, const secp256k1_scalar *b) { W_UF_ENTER uf_sc_set(r, __CPROVER_uninterpreted_scmul2(uf_sc_get(a), uf_sc_get(b))); W_UF_LEAVE }
+void STUB_secp256k1_scalar_inverse(secp256k1_scalar *r, const secp256k1_scalar *a) { W_UF_ENTER uf_sc_set(r, __CPROVER_uninterpreted_scinv2(uf_sc_get(a))); W_UF_LEAVE }
+void STUB_secp256k1_scalar_inverse_var(secp256k1_scalar *r, const secp256k1_scalar *a) { W_UF_ENTER W_UF_VT(a, sizeof(*a)); uf_sc_set(r, __CPROVER_uninterpreted_scinv2(uf_sc_get(a))); W_UF_LEAVE }
 /* gn*G as a function of gn ONLY: this is the blinding invariant (proved inductive in C20's blind_step query, and
  * ecmult_gen's use of it is the group law, C05) stated as a stub. */
 static int uf_gen_calls;
-void STUB_secp256k1_ecmult_gen(const secp256k1_ecmult_gen_context *ctx, secp256k1_gej *r, const secp256k1_scalar *gn) {
+void STUB_secp256k1_ecmult_gen(const secp256k1_ecmult_gen_context *ctx, secp256k1_gej *r, const secp256k1_scalar *gn) { W_UF_ENTER
     u256 g = uf_sc_get(gn); (void)ctx; uf_gen_calls++;
     uf_fe_set(&r->x, __CPROVER_uninterpreted_genx(g)); uf_fe_set(&r->y, __CPROVER_uninterpreted_geny(g));
-    r->z.n[0] = 1; r->z.n[1] = r->z.n[2] = r->z.n[3] = r->z.n[4] = 0; r->infinity = (g == 0);
-}
-void STUB_secp256k1_ecmult(secp256k1_gej *r, const secp256k1_gej *a, const secp256k1_scalar *na, const secp256k1_scalar *ng) {
+    r->z.n[0] = 1; r->z.n[1] = r->z.n[2] = r->z.n[3] = r->z.n[4] = 0; r->infinity = (g == 0); W_UF_LEAVE }
+void STUB_secp256k1_ecmult(secp256k1_gej *r, const secp256k1_gej *a, const secp256k1_scalar *na, const secp256k1_scalar *ng) { W_UF_ENTER W_UF_VT(&a->x, sizeof(a->x)); W_UF_VT(&a->y, sizeof(a->y)); W_UF_VT(&a->z, sizeof(a->z)); W_UF_VT(&a->infinity, sizeof(int)); W_UF_VT(na, sizeof(*na)); if (ng) W_UF_VT(ng, sizeof(*ng));
     bvw ax = fe_val(&a->x), ay = fe_val(&a->y), az = fe_val(&a->z); int ai = a->infinity; u256 n1 = uf_sc_get(na), n2 = ng ? uf_sc_get(ng) : 0;
     if (ai) { ax = ay = az = 0; }
     uf_fe_set(&r->x, __CPROVER_uninterpreted_emx(ax, ay, az, ai, n1, n2)); uf_fe_set(&r->y, __CPROVER_uninterpreted_emy(ax, ay, az, ai, n1, n2));
-    r->z.n[0] = 1; r->z.n[1] = r->z.n[2] = r->z.n[3] = r->z.n[4] = 0; r->infinity = __CPROVER_uninterpreted_eminf(ax, ay, az, ai, n1, n2) & 1;
-}
-void STUB_secp256k1_ecmult_const(secp256k1_gej *r, const secp256k1_ge *a, const secp256k1_scalar *q) {
+    r->z.n[0] = 1; r->z.n[1] = r->z.n[2] = r->z.n[3] = r->z.n[4] = 0; r->infinity = __CPROVER_uninterpreted_eminf(ax, ay, az, ai, n1, n2) & 1; W_UF_LEAVE }
+void STUB_secp256k1_ecmult_const(secp256k1_gej *r, const secp256k1_ge *a, const secp256k1_scalar *q) { W_UF_ENTER
     bvw ax = fe_val(&a->x), ay = fe_val(&a->y); int ai = a->infinity; u256 n1 = uf_sc_get(q);
     if (ai) { ax = ay = 0; }
     uf_fe_set(&r->x, __CPROVER_uninterpreted_emx(ax, ay, 1, ai, n1, 0)); uf_fe_set(&r->y, __CPROVER_uninterpreted_emy(ax, ay, 1, ai, n1, 0));
-    r->z.n[0] = 1; r->z.n[1] = r->z.n[2] = r->z.n[3] = r->z.n[4] = 0; r->infinity = __CPROVER_uninterpreted_eminf(ax, ay, 1, ai, n1, 0) & 1;
-}
+    r->z.n[0] = 1; r->z.n[1] = r->z.n[2] = r->z.n[3] = r->z.n[4] = 0; r->infinity = __CPROVER_uninterpreted_eminf(ax, ay, 1, ai, n1, 0) & 1; W_UF_LEAVE }
+u256 __CPROVER_uninterpreted_cxo(bvw n, bvw d, u256 q); int __CPROVER_uninterpreted_cxo_ok(bvw n, bvw d, u256 q);
+int STUB_secp256k1_ecmult_const_xonly(secp256k1_fe *r, const secp256k1_fe *n, const secp256k1_fe *d, const secp256k1_scalar *q, int known_on_curve) { W_UF_ENTER
+    bvw nv = fe_val(n), dv = d ? fe_val(d) : 1; u256 qv = uf_sc_get(q); int ok;
+    uf_fe_set(r, __CPROVER_uninterpreted_cxo(nv, dv, qv)); ok = known_on_curve | (__CPROVER_uninterpreted_cxo_ok(nv, dv, qv) & 1); W_UF_LEAVE return ok; }
 /* optional bound on the number of compression calls per run (used to cut RFC 6979 retry attempts: stated bound) */
 static int uf_sha_calls, uf_sha_cap = 1 << 20;
-void STUB_secp256k1_sha256_transform_impl(uint32_t *s, const unsigned char *buf) {
+void STUB_secp256k1_sha256_transform_impl(uint32_t *s, const unsigned char *buf) { W_UF_ENTER
     u256 st = 0; u512 blk = 0; int i;
     uf_sha_calls++; __CPROVER_assume(uf_sha_calls <= uf_sha_cap);
     for (i = 0; i < 8; i++) st = (st << 32) | s[i];
     for (i = 0; i < 64; i++) blk = (blk << 8) | buf[i];
     st = __CPROVER_uninterpreted_sha256c2(st, blk);
-    for (i = 7; i >= 0; i--) { s[i] = (uint32_t)st; st >>= 32; }
-}
+    for (i = 7; i >= 0; i--) { s[i] = (uint32_t)st; st >>= 32; } W_UF_LEAVE }
 #endif
